@@ -128,6 +128,22 @@ pub struct Config {
     pub workers: usize,
     /// sort_by_field: None, or (field name, ascending)
     pub sort: Option<(String, bool)>,
+    /// merge everything whenever two segments of the same kind (committed / uncommitted) exist
+    #[serde(default)]
+    pub eager_merges: bool,
+}
+
+/// merge policy that proposes to merge all the segments it is shown as soon as there are two
+#[derive(Debug)]
+pub struct EagerMergePolicy;
+impl tantivy::merge_policy::MergePolicy for EagerMergePolicy {
+    fn compute_merge_candidates(&self, segments: &[tantivy::SegmentMeta]) -> Vec<tantivy::merge_policy::MergeCandidate> {
+        if segments.len() >= 2 {
+            vec![tantivy::merge_policy::MergeCandidate(segments.iter().map(|s| s.id()).collect())]
+        } else {
+            vec![]
+        }
+    }
 }
 
 pub struct Fields {
@@ -174,7 +190,11 @@ pub struct Harness {
 pub fn new_writer(index: &Index, cfg: &Config) -> tantivy::Result<IndexWriter> {
     let opts = IndexWriterOptions::builder().num_worker_threads(cfg.workers).memory_budget_per_thread(15_000_000).num_merge_threads(1).build();
     let w: IndexWriter = index.writer_with_options(opts)?;
-    w.set_merge_policy(Box::new(NoMergePolicy));
+    if cfg.eager_merges {
+        w.set_merge_policy(Box::new(EagerMergePolicy));
+    } else {
+        w.set_merge_policy(Box::new(NoMergePolicy));
+    }
     Ok(w)
 }
 
@@ -272,7 +292,13 @@ impl Harness {
             Op::MergeAll => {
                 let ids: Vec<SegmentId> = self.index.searchable_segment_ids().map_err(|e| api(e, "searchable_segment_ids"))?;
                 if ids.len() >= 2 && !self.delete_all_pending {
-                    self.w().merge(&ids).wait().map_err(|e| api(e, "merge"))?;
+                    let r = self.w().merge(&ids).wait();
+                    if let Err(e) = r {
+                        // with a merge policy running, the listed segments may already be in a merge or gone
+                        if !self.cfg.eager_merges {
+                            return Err(api(e, "merge"));
+                        }
+                    }
                 }
             }
             Op::Reopen => {
